@@ -168,7 +168,7 @@ def r3(ctx, prog):
 
 def run(ctx):
     prog = extract(SCOPE)
-    r1(ctx, prog)
-    r2(ctx, prog)
-    r3(ctx, prog)
+    ctx.guard(r1, ctx, prog)
+    ctx.guard(r2, ctx, prog)
+    ctx.guard(r3, ctx, prog)
     return prog
